@@ -593,7 +593,7 @@ impl Check for GCheck {
                 v = vec![("clean_programs", tier.pick(600, 15_000)), ("fault:undefined-class", 100), ("fault:undefined-multiclass", 30), ("fault:undefined-identifier", 100), ("fault:undefined-include", 50), ("fault:missing-template-arg", 50), ("fault:surplus-template-arg", 100), ("fault:type-incompatible-initialiser", 100), ("fault:type-incompatible-let", 50), ("fault:type-incompatible-argument", 100), ("fault:operator-arity", 50), ("fault:syntax-delete-token", 100), ("fault:syntax-insert-token", 100), ("fault_in_included_file", 50)];
             }
             GMode::Outline => {
-                v.extend([("outline:Class", n), ("outline:Def", n), ("outline:Defset", n / 20), ("outline:Multiclass", n / 10), ("outline:defset-with-children", n / 20), ("fold:class", n), ("fold:if", n / 20), ("fold:let", n / 20)]);
+                v.extend([("outline:Class", n), ("outline:Def", n), ("outline:Defset", n / 20), ("outline:Multiclass", n / 10), ("outline:defset-with-children", n / 20), ("gen:defset:def-under-if", n / 100), ("gen:defset:def-under-let", n / 100), ("fold:class", n), ("fold:if", n / 20), ("fold:let", n / 20)]);
             }
             GMode::Hover => {
                 v.extend([("hover:class", n), ("hover:field", n), ("hover:with-doc", n), ("hover:doc-via-use", n / 4), ("gen:doc:trailing-comment-on-previous-line", n / 10), ("gen:doc:blank-line-separated", n / 10), ("hint:template-arg", n), ("hint:field-let", n / 4), ("hints:empty-range", n), ("hints:sub-range", n)]);
